@@ -27,7 +27,7 @@ STUBS = [
     "signal (as seen from xonsh.procs.posix) -> handler table; subprocess.Popen -> raises the chosen exception (spawn_failure_signals only)",
     "sigint_after_pipeline: signal (as seen from xonsh.procs.proxies) -> handler table with a recorded pthread_kill; the callable-alias stage is a model "
     "object carrying the real ProcProxyThread.wait/_signal_int/_restore_sigint (no OS thread); iterraw's tail -> its three calls in source order",
-    "SubprocSpec.run -> model process (or raises at the chosen stage); iterraw/tee_stdout -> empty; signal/terminal/history plumbing of "
+    "SubprocSpec.run -> model process (or raises at the chosen stage; its wait() records whether the shell still holds the read end of its output pipe); iterraw/tee_stdout -> empty; signal/terminal/history plumbing of "
     "CommandPipeline -> no-op; jobs.add_job -> no-op",
 ]
 ASSUMPTIONS = ["fd numbers are recycled lowest-first, so a second close of an already closed number may hit somebody else's descriptor"]
@@ -125,9 +125,15 @@ class ModelProc:
         return 0
 
     def wait(self, timeout=None):
+        # a producer that is still writing only ends (SIGPIPE) once every read end of its output pipe is closed - the
+        # shell's own copy included: waiting for it while the shell still holds the read end stalls until the timeout
+        for ch in getattr(self.spec, "pipe_channels", ()):
+            if getattr(ch, "read_fd", None) is not None:
+                WAITED_WITH_READER_OPEN.append(self.spec.pipeline_index)
         return 0
 
 
+WAITED_WITH_READER_OPEN: List = []
 FAIL_AT = [-1]
 FAIL_EXC = [Exception]
 
@@ -282,6 +288,7 @@ def _scenario(nstages, cap, fail, at, redirect_in):
 
         S.SubprocSpec.build = staticmethod(build)
     tag = f"{cmds} captured={cap!r} fault={fail}@{at}"
+    del WAITED_WITH_READER_OPEN[:]
     before = set(FDS.open)
     cp = None
     try:
@@ -304,6 +311,9 @@ def _scenario(nstages, cap, fail, at, redirect_in):
         S.SubprocSpec.build = orig_build
     if FDS.double_close:
         return f"double-close: {tag}: fd {FDS.double_close} closed twice"
+    if WAITED_WITH_READER_OPEN:
+        return (f"producer-waited-with-reader-open: {tag}: stage(s) {sorted(set(WAITED_WITH_READER_OPEN))} were waited for while the shell still held the read "
+                f"end of their output pipe (an external producer that is still writing cannot get SIGPIPE: the wait runs into its timeout and the child is left behind)")
     leaked = sorted(FDS.open - before)
     if leaked:
         kind = "leak"
